@@ -3064,7 +3064,8 @@ class Pop3Ops:
             ref = self.refbody.get((box.name, box.uvv, st["uidl"][n]))
             if ref is not None:
                 self.C("c20_retr_equals_imap")
-                if ref[0] != content:
+                # (line ends apart: POP3 lines end with CRLF, an IMAP literal carries whatever the file has)
+                if re.sub(rb"(?<!\r)\n", b"\r\n", ref[0]) != re.sub(rb"(?<!\r)\n", b"\r\n", content):
                     self.V("C20", "pop3_retr_differs_from_imap", cmd=line, uid=st["uidl"][n], imap_len=len(ref[0]), pop_len=len(content))
 
     async def op_pop_quit(self, op):
